@@ -4,6 +4,7 @@ import (
 	"fmt"
 	"sync"
 	"sync/atomic"
+	"time"
 )
 
 // seqCounter is shared by FakeTB and the property interpreter, so that the relative order of TB messages
@@ -40,7 +41,12 @@ func (f *FakeTB) rec(kind, text string) {
 	f.mu.Unlock()
 }
 
-func (f *FakeTB) Helper()      {}
+func (f *FakeTB) Helper() {}
+
+// Deadline: like a *testing.T of a binary run with -timeout 0, this TB has no deadline. (The library only asks a
+// *testing.T; a TB of one's own that has the method must not be taken to be about to expire.)
+func (f *FakeTB) Deadline() (time.Time, bool) { return time.Time{}, false }
+
 func (f *FakeTB) Name() string { return f.name }
 func (f *FakeTB) Logf(format string, args ...any) {
 	f.rec("Logf", fmt.Sprintf(format, args...))
